@@ -6,7 +6,7 @@
 From Coq Require Import ZArith NArith List Bool Arith.
 Import ListNotations.
 From HV Require Export lib.Harness model.Tracked spec.TrackedS model.Validity model.Builder spec.BuilderWFS
-  model.TrackedBuilder.
+  model.TrackedBuilder spec.TrackedWFS.
 From HV Require Import run.C01Run.
 
 Inductive tcase :=
@@ -46,8 +46,8 @@ Definition tvalid (c : tcase) : bool :=
   | TCase tys _ _ _ _ doc => valid {| v_tys := tys; v_main := doc; v_subs := [] |}
   end.
 
-(* the tracked-level premise of C15_circuits_valid, where it applies *)
-Definition tcircuit (c : tcase) : bool :=
+(* the tracked-level premise of C15_wellformed_tracked_programs_valid (spec/TrackedWFS.v) *)
+Definition ttwf (c : tcase) : bool :=
   match c with
-  | TCase tys ins specs track p _ => track && circuit_ok ins specs p
+  | TCase tys ins specs track p _ => r_table tys && twf tys ins specs track p
   end.
